@@ -4,8 +4,11 @@
 here="$(cd "$(dirname "$0")/.." && pwd)"
 out="${1:-$here/out/sweep.txt}"; mkdir -p "$(dirname "$out")"; : > "$out"
 # SEED_DIR: where the seeded changes live (default: the committed ones)
-for d in "${SEED_DIR:-$here/seeded}"/C*/[1-9]; do
+# ONLY_K="9 10": only the changes with these numbers
+for d in "${SEED_DIR:-$here/seeded}"/C*/[0-9]*; do
+  [ -d "$d" ] || continue
   p=$(basename "$(dirname "$d")"); k=$(basename "$d")
+  if [ -n "${ONLY_K:-}" ] && ! echo " $ONLY_K " | grep -q " $k "; then continue; fi
   ids=$(python3 -c "import json;m=json.load(open('$d/meta.json'));print(' '.join(sorted(set([m.get('property','$p')]+[c['check'] for c in m.get('caught_by',[])]))))")
   for id in $ids; do
     res=$(MUTANT_OUT="$here/out/mutant" "$here/tools/try_mutant.sh" "$d/patch.diff" $id 2>&1)
